@@ -2,7 +2,7 @@
    (validateLastOccurrence in x/cfedistributor/types/sub_distributor.go) does not depend on the
    iteration order; the error text it reports does (defect F8 / repaired by sorting). *)
 From C4E Require Import Base.
-From Coq Require Import Permutation.
+From Coq Require Import Permutation Lia ZifyBool.
 Open Scope Z_scope.
 
 (* entries of the lastOccurrence map: account id -> "last occurrence is a source" *)
@@ -44,3 +44,62 @@ Qed.
 Fixpoint insert_sorted (e : Z * bool) (l : list (Z * bool)) : list (Z * bool) :=
   match l with [] => [e] | x :: t => if fst e <=? fst x then e :: l else x :: insert_sorted e t end.
 Definition sort_entries (l : list (Z * bool)) : list (Z * bool) := fold_right insert_sorted [] l.
+
+(* strictly increasing keys *)
+Fixpoint kstrict (l : list (Z * bool)) : Prop :=
+  match l with [] => True | x :: t => Forall (fun y => fst x < fst y) t /\ kstrict t end.
+
+Lemma insert_sorted_perm e l : Permutation (insert_sorted e l) (e :: l).
+Proof.
+  induction l as [|x t IH]; cbn [insert_sorted]; [apply Permutation_refl|].
+  destruct (fst e <=? fst x); [apply Permutation_refl|]. eapply perm_trans; [apply perm_skip; exact IH | apply perm_swap].
+Qed.
+Lemma sort_entries_perm l : Permutation (sort_entries l) l.
+Proof.
+  induction l as [|x t IH]; cbn [sort_entries fold_right]; [apply Permutation_refl|]. fold (sort_entries t).
+  eapply perm_trans; [apply insert_sorted_perm | apply perm_skip; exact IH].
+Qed.
+
+Lemma insert_sorted_strict e l : kstrict l -> ~ In (fst e) (map fst l) -> kstrict (insert_sorted e l).
+Proof.
+  induction l as [|x t IH]; intros Hs Hn; cbn [insert_sorted]; [cbn; split; [constructor | exact I]|].
+  destruct Hs as [H1 H2]. cbn [map In] in Hn.
+  destruct (fst e <=? fst x) eqn:E.
+  - cbn [kstrict]. split; [|split; assumption]. assert (fst e <> fst x) by (intros Eq; apply Hn; left; symmetry; exact Eq).
+    constructor; [lia|]. eapply Forall_impl; [|exact H1]. cbn. intros; lia.
+  - cbn [kstrict]. split.
+    + eapply Permutation_Forall; [apply Permutation_sym; apply insert_sorted_perm|]. constructor; [lia | exact H1].
+    + apply IH; [exact H2 | intros Hin; apply Hn; right; exact Hin].
+Qed.
+
+Lemma sort_entries_strict l : NoDup (map fst l) -> kstrict (sort_entries l).
+Proof.
+  induction l as [|x t IH]; intros Hn; cbn [sort_entries fold_right]; [exact I|]. fold (sort_entries t).
+  cbn [map] in Hn. inversion Hn as [|? ? Hx Ht]; subst. apply insert_sorted_strict; [apply IH; exact Ht|].
+  intros Hin. apply Hx. eapply Permutation_in; [apply Permutation_map; apply sort_entries_perm | exact Hin].
+Qed.
+
+Lemma kstrict_perm_eq l : forall l', kstrict l -> kstrict l' -> Permutation l l' -> l = l'.
+Proof.
+  induction l as [|x t IH]; intros l' Hs Hs' Hp.
+  - apply Permutation_nil in Hp. subst. reflexivity.
+  - destruct l' as [|y t']; [apply Permutation_sym, Permutation_nil in Hp; discriminate|].
+    destruct Hs as [H1 H2]. destruct Hs' as [H1' H2'].
+    assert (Hxy : x = y).
+    { assert (Hx : In x (y :: t')) by (eapply Permutation_in; [exact Hp | left; reflexivity]).
+      assert (Hy : In y (x :: t)) by (eapply Permutation_in; [apply Permutation_sym; exact Hp | left; reflexivity]).
+      destruct Hx as [Hx|Hx]; [symmetry; exact Hx|]. destruct Hy as [Hy|Hy]; [exact Hy|].
+      pose proof (proj1 (Forall_forall _ _) H1' x Hx) as A. pose proof (proj1 (Forall_forall _ _) H1 y Hy) as B. cbn beta in A, B. lia. }
+    subst y. f_equal. apply IH; [exact H2 | exact H2' | eapply Permutation_cons_inv; exact Hp].
+Qed.
+
+(* after the repair (iterate the account ids in sorted order): whatever order the Go map is ranged in,
+   the same account id is reported *)
+Theorem reported_id_after_fix_independent_of_map_order l l' :
+  NoDup (map fst l) -> Permutation l l' -> first_bad (sort_entries l) = first_bad (sort_entries l').
+Proof.
+  intros Hn Hp. f_equal. apply kstrict_perm_eq.
+  - apply sort_entries_strict; exact Hn.
+  - apply sort_entries_strict. eapply Permutation_NoDup; [apply Permutation_map; exact Hp | exact Hn].
+  - eapply perm_trans; [apply sort_entries_perm|]. eapply perm_trans; [exact Hp | apply Permutation_sym; apply sort_entries_perm].
+Qed.
